@@ -301,12 +301,40 @@ class HistoryRunner:
 				self.tainted, self.written = keep
 			self.changed_since_obs = True
 			self.kinds_seq.append('sweep')
+		elif kind == 'short-read-sweep':
+			self.do_short_read_sweep(i, op)
 		elif kind == 'loop':
 			self.do_loop(i, op)
 		elif kind == 'run':
 			self.do_run(i, op)
 		else:
 			raise ValueError(f'unknown op {kind}')
+
+	def do_short_read_sweep(self, i: int, op: dict[str, Any]) -> None:
+		"""One raw read of a module source delivers fewer bytes than asked for (legal for read(2)), cut just before each top-level statement
+		(where the prefix still parses); then a fault-free run. Costs one dry run when the code under test reads its sources through buffered
+		readers (which absorb short reads): there is no raw read event to cut then."""
+		import os as _os
+		snap = self.proj.sc.snapshot()
+		keep = (set(self.tainted), {k: dict(v) for k, v in self.written.items()})
+		self.run_once(i, {'op': 'run', 'enabled': True}, None)
+		reads = [(n, ev) for n, ev in enumerate(self.last_trace) if ev[0] == 'read' and ev[1].endswith('.py') and (op.get('m') is None or ev[1] == pools.module_relpath(op['m']))]
+		self.bump('probes', 'short-read sweep: raw source reads found' if reads else 'short-read sweep: sources are read through buffered readers (short reads absorbed)')
+		done = 0
+		for n, ev in reads[:op.get('files', 2)]:
+			data = self.proj.sc.read(ev[1]) or b''
+			cuts = [k for k in range(1, len(data)) if data[k - 1:k] == b'\n' and data[k:k + 1] not in (b'\n', b'\t', b' ', b'#', b'')]
+			for off in cuts[-op.get('cap', 12):]:
+				self.proj.sc.restore(snap)
+				self.tainted, self.written = set(keep[0]), {k: dict(v) for k, v in keep[1].items()}
+				self.context_note = {'short_read_of': ev[1], 'delivered': off, 'size': len(data)}
+				self.run_once(i, {'op': 'run', 'enabled': True}, {'at': n, 'kind': 'short-read', 'k': off, 'path': ev[1]})
+				self.run_once(i, {'op': 'run', 'enabled': True}, None)
+				done += 1
+		self.context_note = {}
+		self.proj.sc.restore(snap)
+		self.tainted, self.written = keep
+		self.kinds_seq.append('short-read-sweep')
 
 	def do_loop(self, i: int, op: dict[str, Any]) -> None:
 		"""The steps (run / edit / touch) once as a build loop inside ONE simulated process, then -- from the same snapshot -- as the usual
